@@ -81,9 +81,9 @@ example :
           mk .Return (tc 15) [mk .BinaryOp (tc 16) [.str "+", mk .ID (tc 16) [.str "x"],
             mk .Constant (tc 18) [.str "int", .str "1"]]]]]]]]) := by
   let prog : List Ext :=
-    [.decl { specs := [("INT", "int")], first := { d := .name "g", init := some (.const "INT_CONST_DEC" "1" "int") }, more := [] },
+    [.decl { specs := [("INT", "int")], first := { d := .name "g", init := some (.expr (.const "INT_CONST_DEC" "1" "int")) }, more := [] },
      .fdef { specs := [("INT", "int")], d := .fn0 (.name "main"),
-             body := .consD { specs := [("INT", "int")], first := { d := .name "x", init := some (.id "g") }, more := [] }
+             body := .consD { specs := [("INT", "int")], first := { d := .name "x", init := some (.expr (.id "g")) }, more := [] }
                       (.cons (.ret (some (.bin "PLUS" "+" (.id "x") (.const "INT_CONST_DEC" "1" "int")))) .nil) }]
   have hint : SpecToks false [("INT", "int")] := by simp [SpecToks, typeSpecSimple]
   have hval : SpecVals [("INT", "int")] := by
@@ -92,9 +92,9 @@ example :
     intro e he
     simp only [prog, List.mem_cons, List.not_mem_nil, or_false] at he
     rcases he with rfl | rfl
-    · exact ⟨hint, hval, rfl, ⟨.name _, by intro e h; cases h; exact .const _ _ _ _ (by decide)⟩, by intro it h; cases h⟩
+    · exact ⟨hint, hval, rfl, ⟨.name _, by intro e h; cases h; exact .expr _ (.const _ _ _ _ (by decide))⟩, by intro it h; cases h⟩
     · refine ⟨hint, hval, rfl, .fn0 _ (.name _) rfl, ?_⟩
-      refine .consD _ _ ⟨hint, hval, rfl, ⟨.name _, by intro e h; cases h; exact .id _ _⟩, by intro it h; cases h⟩
+      refine .consD _ _ ⟨hint, hval, rfl, ⟨.name _, by intro e h; cases h; exact .expr _ (.id _ _)⟩, by intro it h; cases h⟩
         (fun _ _ => rfl) (.cons _ _ ?_ .nil)
       exact StmtSkel.WFS.retSome _ (.bin _ 8 _ _ _ _ (by decide) (by omega) (.id _ _) (.const _ _ _ _ (by decide)))
   exact parse_translation_unit prog hw 200 (by decide)
